@@ -33,6 +33,8 @@ const (
 	cancelAfter
 )
 
+var errAppCause = errors.New("verif: application cause of the cancellation")
+
 type scenario struct {
 	K       int   `json:"k"`
 	Stages  []int `json:"stages"`  // per waiter: 0 in-window, 1 parked
@@ -124,6 +126,8 @@ func main() {
 			s.PreBcast = c.Rand.Bool(0.3)
 			execute(c, s)
 		})
+		r.Cases("bcast-race", r.Scale(4000, 60000), 1, func(c *vkit.Case) { bcastRace(c) })
+		r.Floor("rounds with lock-less Broadcasts racing a waiter's entry into Wait", r.Table("bcast-race", "rounds"), 1000)
 		r.Floor("gated scenarios executed", r.Table("scenarios", "gated"), int64(len(all)))
 		r.Floor("waiters confirmed parked through the goroutine dump", r.Table("waiters", "confirmed parked before the signals"), 100)
 		r.Floor("waiters held in the window while signals were sent", r.Table("waiters", "held in the window during the signals"), 100)
@@ -203,7 +207,13 @@ func execute(c *vkit.Case, s scenario) {
 	for i := 0; i < k; i++ {
 		i := i
 		ws[i] = &waiterState{}
-		ctxs[i], cancels[i] = context.WithCancel(context.Background())
+		if (c.Index+i)%2 == 0 {
+			ctxs[i], cancels[i] = context.WithCancel(context.Background())
+		} else {
+			// a context that carries a cancellation CAUSE: Wait must still return ctx.Err()
+			cctx, ccancel := context.WithCancelCause(context.Background())
+			ctxs[i], cancels[i] = cctx, func() { ccancel(errAppCause) }
+		}
 		wg.Add(1)
 		go func() {
 			defer wg.Done()
@@ -337,8 +347,8 @@ func execute(c *vkit.Case, s scenario) {
 		case 3:
 			errRet++
 			states = append(states, "err")
-			if s.Cancels[i] == cancelNone || !errors.Is(w.err, context.Canceled) {
-				fail("spurious-error", fmt.Sprintf("waiter %d returned %v although its context was not cancelled", i, w.err), nil)
+			if s.Cancels[i] == cancelNone || w.err != ctxs[i].Err() || !errors.Is(w.err, context.Canceled) {
+				fail("wrong-error", fmt.Sprintf("waiter %d returned %v; its context's error is %v (cancelled by the scenario: %v)", i, w.err, ctxs[i].Err(), s.Cancels[i] != cancelNone), nil)
 				release(gl, s, cancels, &wg, cond)
 				return
 			}
@@ -512,4 +522,79 @@ func release(gl *gateLocker, s scenario, cancels []context.CancelFunc, wg *sync.
 	done := make(chan struct{})
 	go func() { wg.Wait(); close(done) }()
 	vkit.Await(done, vkit.AwaitOpts{Soft: 5 * time.Second, Gap: 200 * time.Millisecond, Hard: 30 * time.Second})
+}
+
+// bcastRace: Broadcasts issued WITHOUT holding L race a waiter's entry into Wait (the statements
+// before Wait releases the lock, which no Locker and no pause point can reach). Whatever happened
+// during the entry, a Broadcast issued after the waiter has released the lock must wake it.
+func bcastRace(c *vkit.Case) {
+	r := c.R
+	gl := &gateLocker{current: -1, pert: vkit.NewPerturber(c.Rand.Split(), 7, 0.3)}
+	gl.reached = []chan struct{}{make(chan struct{})}
+	gl.gates = []chan struct{}{make(chan struct{})}
+	cond := xsync.NewContextCond(gl)
+	if c.Rand.Bool(0.5) {
+		cond.Broadcast()
+	}
+	nb := c.Rand.Range(1, 40)
+	stop := make(chan struct{})
+	var hammer sync.WaitGroup
+	hammers := c.Rand.Range(1, 2)
+	for h := 0; h < hammers; h++ {
+		hammer.Add(1)
+		go func() {
+			defer hammer.Done()
+			for i := 0; i < nb; i++ {
+				select {
+				case <-stop:
+					return
+				default:
+				}
+				cond.Broadcast()
+			}
+		}()
+	}
+	var ws waiterState
+	ctx, cancel := context.WithCancel(context.Background())
+	defer cancel()
+	done := make(chan struct{})
+	go func() {
+		defer close(done)
+		gl.Lock()
+		gl.current = 0
+		ws.phase.Store(1)
+		err := cond.Wait(ctx)
+		if err == nil {
+			gl.current = -1
+			gl.mu.Unlock()
+			ws.phase.Store(2)
+			return
+		}
+		ws.err = err
+		ws.phase.Store(3)
+	}()
+	if !awaitChan(gl.reached[0]) {
+		c.Violation("wait-did-not-unlock", "bcast-race: the waiter never released the lock inside Wait", nil)
+		return
+	}
+	close(stop)
+	hammer.Wait()
+	cond.Broadcast() // after the waiter has released the lock: must wake it
+	r.Eval(1)
+	r.Count("bcast-race", "rounds", 1)
+	v, dump := vkit.Await(done, vkit.AwaitOpts{Soft: 2 * time.Second, Gap: 200 * time.Millisecond, Hard: 60 * time.Second})
+	switch v {
+	case vkit.AwaitStuck:
+		c.Violation("broadcast-missed", fmt.Sprintf("bcast-race: a Broadcast issued after the waiter had released the lock did not wake it (%d lock-less Broadcasts from %d goroutine(s) had raced its entry into Wait)", nb, hammers),
+			map[string]any{"goroutines": dump})
+		cancel()
+		<-done
+	case vkit.AwaitInconclusive:
+		r.Inconclusive("bcast-race: waiter neither returned nor provably parked")
+		cancel()
+	default:
+		if ws.phase.Load() != 2 {
+			c.Violation("wrong-error", fmt.Sprintf("bcast-race: Wait returned %v although its context was live", ws.err), nil)
+		}
+	}
 }
